@@ -253,6 +253,7 @@ func init() {
 			reflectKinds(c, "callable.go")
 			funcOfArity(c, "callable.go")
 			noRecover(c, "callable.go")
+			callerSlicesReadOnly(c, "callable.go")
 			resultsStored(c)
 			c.errPolarity("Call")
 			out := c.sel(func(o *an.Oblig) bool { return isUndecided(o) || o.Rule == "ANCHOR" })
@@ -317,6 +318,18 @@ func packageCall(c *Ctx) {
 			cfgOK = fa != nil && fr != nil && fa.X == fr.X && fa.X == op.Call.Args[0]
 		}
 	}
+	// ... and that config is this call's own: a fresh allocation of Call (a recycled or shared configuration would
+	// carry a thunk from an earlier call whose later option failed)
+	fresh := true
+	for _, sv := range P.SourcesAt(op.Call.Args[0], op) {
+		if isNilConst(sv) {
+			continue // the error arm of a constructor helper: nothing to inherit from
+		}
+		if al, isA := sv.(*ssa.Alloc); !isA || al.Parent() != q.fn {
+			fresh = false
+		}
+	}
+	q.add("PROV", "every Call starts from its own empty configuration", fresh, pickS(fresh, "the config handed to the options is allocated by this Call", "the configuration the options fill in is not allocated by this Call (pooled, cached or shared): thunks set by an earlier call can reach a later one"), op)
 	q.add("PROV", "the callable receives the thunks the options configured", cfgOK, pickS(cfgOK, "caller.Call(config.args, config.results) of the config passed to every option", "caller.Call does not receive config.args / config.results of the config the options filled in"), inv)
 	// returns: the invocation's error, or an error that precedes it
 	for _, r := range returnsOf(q.fn) {
@@ -963,6 +976,63 @@ func funcOfArity(c *Ctx, inFile string) {
 // noRecover: "only a panic raised by the called function itself propagates" - and it does propagate: nothing in the
 // file recovers. (A recover around the invocation cannot tell the function's own panic from the library's.) The
 // detector is the one that finds the package's only recover (chanpubsub.go), which is the rule's positive control.
+// callerSlicesReadOnly: the variadic slices the caller hands to CallArgs / CallResults (and whatever else the functions
+// of the file receive or capture as a slice) are only read. The option value is reusable and may alias the caller's
+// own slice: writing a resolved value back into args[i] changes what the next Call with the same option passes.
+func callerSlicesReadOnly(c *Ctx, inFile string) {
+	P := c.P
+	q := &fq{c: c, name: "callable.go"}
+	var bad []ssa.Instruction
+	n := 0
+	for _, fn := range P.AllFuncs() {
+		if len(fn.Blocks) == 0 || !P.IsLib(an.Canon(fn)) || !strings.Contains(P.Pos(fn.Pos()), inFile) {
+			continue
+		}
+		n++
+		given := func(v ssa.Value) bool {
+			for _, sv := range P.Sources(v) {
+				switch x := sv.(type) {
+				case *ssa.Parameter, *ssa.FreeVar:
+					return true
+				case *ssa.UnOp:
+					if x.Op == token.MUL {
+						if _, isFV := x.X.(*ssa.FreeVar); isFV {
+							return true
+						}
+					}
+				case *ssa.Slice:
+					for _, s2 := range P.Sources(x.X) {
+						switch s2.(type) {
+						case *ssa.Parameter, *ssa.FreeVar:
+							return true
+						}
+					}
+				}
+			}
+			return false
+		}
+		for _, in := range an.AllInstrs(fn, func(in ssa.Instruction) bool { return true }) {
+			switch x := in.(type) {
+			case *ssa.Store:
+				if ia, ok := x.Addr.(*ssa.IndexAddr); ok {
+					if _, isSl := ia.X.Type().Underlying().(*types.Slice); isSl && given(ia.X) {
+						bad = append(bad, in)
+					}
+				}
+			case *ssa.Call:
+				if b, ok := x.Call.Value.(*ssa.Builtin); ok && (b.Name() == "copy" || b.Name() == "clear") && len(x.Call.Args) > 0 && given(x.Call.Args[0]) {
+					bad = append(bad, in)
+				}
+			}
+		}
+	}
+	if n == 0 {
+		q.undecided("WR", "the caller's argument and target slices are only read", "no function of "+inFile+" found")
+		return
+	}
+	q.add("WR", "the caller's argument and target slices are only read", len(bad) == 0, pickS(len(bad) == 0, "no element store, copy or clear into a slice that was received or captured", "an element of a slice the caller passed in (or the option captured) is overwritten: the option value and the caller's slice are changed by a Call"), bad...)
+}
+
 func noRecover(c *Ctx, inFile string) {
 	P := c.P
 	isRecover := func(in ssa.Instruction) bool {
